@@ -199,4 +199,22 @@ AttrStep(impl, st, a) ==
 RECURSIVE AttrRun(_, _, _, _)
 AttrRun(impl, st, hist, i) ==
     IF i > Len(hist) THEN st ELSE AttrRun(impl, AttrStep(impl, st, hist[i]), hist, i + 1)
+
+(***************************************************************************)
+(* Pairing of the POSITIONAL final_strengths with the NAMED targets.       *)
+(* final_strengths[i] belongs to the i-th metric of the targets dict in    *)
+(* the order in which the CALLER built it.  rank[i] = alphabetical rank of *)
+(* the name of the caller's i-th metric (a permutation of 1..k); s, c, t   *)
+(* are all in caller order.                                                *)
+(*   "position": strength i goes with the caller's i-th metric             *)
+(*   "sorted"  : the metrics are re-ordered alphabetically first, so the   *)
+(*               caller's i-th metric is weighted with strength rank[i]    *)
+(***************************************************************************)
+RECURSIVE PairedFrom(_, _, _, _, _, _, _, _)
+PairedFrom(impl, rank, s, c, t, e, n, i) ==
+    IF i > Len(s) THEN 0
+    ELSE EffU(s[IF impl = "sorted" THEN rank[i] ELSE i], e, n) * Excess(c[i], t[i])
+         + PairedFrom(impl, rank, s, c, t, e, n, i + 1)
+PairedPen(impl, rank, s, c, t, e, n) == PairedFrom(impl, rank, s, c, t, e, n, 1)
+IsPermutation(rank) == {rank[i] : i \in DOMAIN rank} = 1..Len(rank)
 =============================================================================
